@@ -177,12 +177,19 @@ def class_source(spec) -> str:
                 L.append(f"        forbid_extra_keys = {c['forbid']!r}")
             if c.get("dialect_support"):
                 L.append("        code_generation_options = [ADD_DIALECT_SUPPORT]")
+            if c.get("dw") == "none":
+                L.append("        discriminator = None")
+            elif c.get("dw") is not None:
+                fld = c["dw"][1]
+                L.append("        discriminator = Discriminator(" + (f"field={fld!r}, " if fld is not None else "") + "include_subtypes=True)")
             if len(L) == n0:
                 L.append("        pass")
             body += 1
         if lv.get("hook") is not None:
             L.append("    @classmethod")
             L.append("    def __pre_deserialize__(cls, d):")
+            L.append("        if not isinstance(d, dict):")
+            L.append("            return d")
             L.append("        d = dict(d)")
             for op in lv["hook"]:
                 if op[0] == "drop":
@@ -458,6 +465,28 @@ def cfg_hierarchy(spec, sub):
     return spec["levels"][:spec["levels"].index(last) + 1]
 
 
+def hook_views(spec, mod):
+    """For K and each ancestor: (Coq case `(hooks of the dataclasses of its MRO nearest first, uses the mixins, level whose
+    body defines the classmethod that CodeBuilder(cls).get_declared_hook('__pre_deserialize__') returns)`, class, level)"""
+    from mashumaro.core.meta.code.builder import CodeBuilder
+    from mashumaro.mixins.dict import DataClassDictMixin
+    out = []
+    levels = spec["levels"]
+    for j, lv in enumerate(levels):
+        cls = getattr(mod, lv["cls"])
+        sub = levels[:j + 1] if (spec["shape"] == "chain" or lv["cls"] == "K") else [lv]
+        got = CodeBuilder(cls).get_declared_hook("__pre_deserialize__")
+        where = None
+        if got is not None:
+            owners = [i for i, x in enumerate(sub) if getattr(mod, x["cls"]).__dict__.get("__pre_deserialize__") is got]
+            where = owners[0] if len(owners) == 1 else -1         # -1: not the classmethod of any class of the hierarchy
+        hs = c_hooks({"levels": list(reversed(sub))})
+        mixin = DataClassDictMixin in cls.__mro__
+        o = "None" if where is None else f"(Some {where}%nat)" if where >= 0 else "(Some 99%nat)"
+        out.append((f"({hs}, {vlib.coq_bool(mixin)}, {o})", lv["cls"], where))
+    return out
+
+
 def source_views(spec, mod):
     """For K and each ancestor: (the part of the hierarchy the class is made of, what CodeBuilder(cls).dataclass_fields
     holds [(name, metadata alias, init)], what CodeBuilder(cls).get_config() holds) as Coq terms."""
@@ -485,7 +514,7 @@ def source_views(spec, mod):
 def tag_dispatch_ok(spec) -> bool:
     """The parent's discriminator field is a class attribute of K (declared by class_source) and no field can
     be read from that key (the tag value is a string, not an int / None)."""
-    if spec["discr"] is None or spec["discr"][0] != "field":
+    if spec["discr"] is None or spec["discr"][0] != "field" or spec.get("no_base"):
         return False
     fld = spec["discr"][1]
     if not (fld.isidentifier() and not keyword.iskeyword(fld)) or fld in member_names(spec):
@@ -749,21 +778,22 @@ def c_discr(spec) -> str:
     return "(Some None)"
 
 
+def c_level(lv) -> str:
+    decls = "; ".join(f"({c_fld(f)}, {vlib.coq_bool(f['init'])})" for f in lv["decls"])
+    if lv["config"] is None:
+        cfg = "None"
+    else:
+        c = lv["config"]
+        ob = lambda b: "None" if b is None else f"(Some {vlib.coq_bool(b)})"
+        al = "None" if c["aliases"] is None else f"(Some {c_aliases(c['aliases'])})"
+        cfg = (f"(Some (mkCD {vlib.coq_bool(c['inherit'] is not None)} {vlib.coq_bool(c['plain'])} {al} "
+               f"{ob(c['allow'])} {ob(c['forbid'])}))")
+    return f"mkL [{decls}] {cfg}"
+
+
 def c_spec(spec) -> str:
     """The hierarchy as written; flattening (nearest declaration, nearest Config, init filter) happens in Coq."""
-    lv_txt = []
-    for lv in spec["levels"]:
-        decls = "; ".join(f"({c_fld(f)}, {vlib.coq_bool(f['init'])})" for f in lv["decls"])
-        if lv["config"] is None:
-            cfg = "None"
-        else:
-            c = lv["config"]
-            ob = lambda b: "None" if b is None else f"(Some {vlib.coq_bool(b)})"
-            al = "None" if c["aliases"] is None else f"(Some {c_aliases(c['aliases'])})"
-            cfg = (f"(Some (mkCD {vlib.coq_bool(c['inherit'] is not None)} {vlib.coq_bool(c['plain'])} {al} "
-                   f"{ob(c['allow'])} {ob(c['forbid'])}))")
-        lv_txt.append(f"mkL [{decls}] {cfg}")
-    return f"[{'; '.join(lv_txt)}]"
+    return f"[{'; '.join(c_level(lv) for lv in spec['levels'])}]"
 
 
 def c_hooks(spec) -> str:
@@ -810,6 +840,56 @@ def c_obs(o) -> str:
 CASE_TYPE = "list level * list (option (list hookop)) * option (option string) * list Z * dict * observation"
 
 
+# ---------------------------------------------------------------------------
+# listed findings and the correspondences
+# ---------------------------------------------------------------------------
+# Rule (round 6; the fresh-copy alarm `C09-1-unshown.json` of the round-3 state was a hand-written Coq copy of the
+# listed defect `plain-config-inherit` -- builder_cfg / no_plain_inherit -- that disagreed with /repo once the defect had
+# been repaired there, while the oracle had nothing to show): a listed finding is NEVER represented in a Coq definition
+# or in a comparison function.  The implementation model follows /repo through the translated kernels only, the reference
+# is the property text, and the one place a listed finding is tolerated is here: a correspondence mismatch is accepted
+# iff, on that very input, the oracle observed the real implementation deviating from KEYMODEL with a signature that
+# matches an open entry of known_findings (it is then counted by the KNOWN-FINDING line, `reproduced n x`).  A finding
+# that is listed but no longer reproduces (0 x: repaired in /repo) therefore changes nothing: code, reference and the
+# translated model agree, and nothing refers to the finding.
+
+class Listed:
+    def __init__(self, pid):
+        self.pid = pid
+        self.kfs = vlib.load_known_findings()
+        self.flags = {}
+
+    def fail(self, ctx, stream, idx, what, replay, sig):
+        """ctx.fail + remember whether this failure of case `idx` of `stream` is a listed finding"""
+        ctx.fail(what, replay, sig)
+        hit = vlib.match_known(self.pid, vlib.Failure(what, replay, sig), self.kfs) is not None
+        self.flags.setdefault((stream, idx), []).append(hit)
+
+    def explained(self, stream, idx) -> bool:
+        fl = self.flags.get((stream, idx))
+        return bool(fl) and all(fl)
+
+
+LISTED = Listed("C09")
+
+
+def settle(ctx, stream, name, n, bad, log, describe):
+    """Record a correspondence; mismatches that are not explained by a listed finding reproduced on the same input
+    (stream None: no oracle runs on these cases, every mismatch counts) break the tie."""
+    if bad is None:
+        ctx.correspondence(name, n, -1, log)
+        ctx.not_shown("correspondence " + name, log)
+        return
+    open_ = [i for i in bad if stream is None or not LISTED.explained(stream, i)]
+    det = describe(bad) if bad else ""
+    if bad and not open_:
+        det = f"all {len(bad)} on inputs where the oracle reproduces a listed finding (see the KNOWN-FINDING lines); " + det
+    ctx.correspondence(name, n, len(bad), det)
+    if open_:
+        ctx.not_shown("correspondence " + name, describe(open_))
+
+
+
 def coq_check(name, model, items, ok_fun, ctx, shard=500, ctype=CASE_TYPE):
     """Like vlib.coq_bad_idx, but every shard file carries only the class definitions its cases use.
     items: [(class index, definition text, case text)]."""
@@ -829,7 +909,9 @@ def coq_check(name, model, items, ok_fun, ctx, shard=500, ctype=CASE_TYPE):
         txt += f"Definition cases : list ({ctype}) :=\n  [" + ";\n   ".join(c for _, _, c in chunk) + "].\n"
         txt += f"Eval vm_compute in (bad_idx ({ok_fun}) cases).\n"
         files.append((f"{name}_{si // shard}", txt))
-    res = vlib.coq_eval_many(files, timeout=600, jobs=4 if ctx.quick() else 12)
+    # per-file budget far above what a shard needs (seconds on an idle machine): a loaded machine must not turn into a
+    # broken correspondence
+    res = vlib.coq_eval_many(files, timeout=2400, jobs=4 if ctx.quick() else 12)
     bad = []
     for n, (ok, out) in enumerate(res):
         if not ok:
@@ -1047,7 +1129,7 @@ def nested_stream(ctx, rng, k4_ok):
                 if obs0 is None:
                     obs0 = obs
                 if obs != exp:
-                    ctx.fail(f"{ename}({d!r}) -> {obs!r}, KEYMODEL says {exp!r}",
+                    LISTED.fail(ctx, "nested", len(items), f"{ename}({d!r}) -> {obs!r}, KEYMODEL says {exp!r}",
                              dict(replay_of(spec, src, ename, {}, obs, exp), input_nested=[[jsonable_key(k), v if not isinstance(v, dict) else {"dict": [[jsonable_key(a), b] for a, b in v.items()]}] for k, v in d.items()]),
                              {"kind": "nested-key-resolution", "observed": obs[0], "expected": exp[0]})
 
@@ -1091,14 +1173,8 @@ def nested_stream(ctx, rng, k4_ok):
     else:
         bad, log = None, "kernel K4 did not translate (the nested model is built on it)"
     name = "nested: nimpl(K4)/nkeymodel-vs-from_dict"
-    if bad is None:
-        ctx.correspondence(name, len(items), -1, log)
-        ctx.not_shown("correspondence " + name, log)
-    else:
-        det = "" if not bad else f"{len(bad)} cases, first: input {shown[bad[0]][1]!r}: implementation {shown[bad[0]][2]!r}\n{shown[bad[0]][0]}"
-        ctx.correspondence(name, len(items), len(bad), det)
-        if bad:
-            ctx.not_shown("correspondence " + name, det)
+    settle(ctx, "nested", name, len(items), bad, log,
+           lambda b: f"{len(b)} cases, first: input {shown[b[0]][1]!r}: implementation {shown[b[0]][2]!r}\n{shown[b[0]][0]}")
 
 
 
@@ -1169,8 +1245,20 @@ def gen_deep(rng):
                 for g in decls:
                     g["dflt"] = None
                 break
-        return {"levels": [{"cls": cname, "decls": decls, "config": cfg(names, cname.lower())}], "classvar": [], "initvar": [],
-                "shape": "chain", "generic": False, "discr": None, "mixin": rng.choice([None, "dict"]), "inner": inner}
+        hook = None
+        if rng.random() < 0.4:
+            pool = list(names) + [f["meta"] for f in decls if f["meta"]] + ["legacy", "junk", "s1", "s2"]
+            hook = []
+            for _ in range(rng.choice([1, 1, 2])):
+                r = rng.random()
+                if r < 0.3:
+                    hook.append(("drop", rng.choice(pool)))
+                elif r < 0.45:
+                    hook.append(("put", rng.choice(pool), 950 + len(hook)))
+                else:
+                    hook.append(("rename", rng.choice(pool), rng.choice(pool)))
+        return {"levels": [{"cls": cname, "decls": decls, "config": cfg(names, cname.lower()), "hook": hook}], "classvar": [],
+                "initvar": [], "shape": "chain", "generic": False, "discr": None, "mixin": rng.choice([None, "dict"]), "inner": inner}
     n2 = mk("N2", ["r", "s"][:rng.choice([1, 2])], [("scalar",)] * 2, "int", None)
     n1_names = ["p", "q"][:rng.choice([1, 2, 2])]
     n1_types = [rng.choice([("scalar",), wrap(("cls", "N2"))]) for _ in n1_names]
@@ -1199,6 +1287,7 @@ def o_deep(classes, cname, d, top=True):
     spec = classes[cname]
     if not isinstance(d, dict):
         return ("fail",)
+    d = o_apply_hook(spec, d)          # the class's own __pre_deserialize__, on the mapping handed to this class
     acc = o_accepted(spec)
     extra = [k for k in d if k not in acc]
     if o_config(spec)["forbid"] and extra:
@@ -1295,16 +1384,17 @@ def deep_obs(v):
     return v
 
 
-def observe_deep(call, d):
+def observe_deep(call, d, seen=None):
     from mashumaro.exceptions import ExtraKeysError, InvalidFieldValue, MissingField
     import copy
+    seen = d if seen is None else seen
     try:
         obj = call(copy.deepcopy(d))
     except ExtraKeysError as e:
         ek = set(e.extra_keys)
-        if any(k not in d for k in ek):
+        if any(k not in seen for k in ek):
             return ("exc", f"ExtraKeysError.extra_keys {ek!r} is not a set of input keys")
-        return ("extra", [k for k in d if k in ek])
+        return ("extra", [k for k in seen if k in ek])
     except MissingField as e:
         return ("missing", e.field_name)
     except InvalidFieldValue as e:
@@ -1367,7 +1457,9 @@ def deep_stream(ctx, rng, k4_ok):
             c = classes[n]
             tys = "; ".join(f"({coq_str(f['name'])}, {ty_coq(f['t'], idx)})" for f in o_fields(c) if f["t"][0] != "scalar")
             tb.append(f"mkN (class_of {c_spec(c)} None) [{tys}]")
-        dtxt = f"Definition tb{ci} : list ncls := [{'; '.join(tb)}]."
+        hk = "[" + "; ".join(c_hooks(classes[n])[1:-1] for n in order) + "]"
+        ctx.hist("deep_hooks", " ".join(n for n in order if classes[n]["levels"][0].get("hook")) or "none")
+        dtxt = f"Definition tb{ci} : list ncls := [{'; '.join(tb)}].\nDefinition hk{ci} : list (option (list hookop)) := {hk}."
         dfl = "[" + "; ".join(f"({coq_str(f['name'])}, {c_val(o_default(f))})" for c in classes.values() for f in o_fields(c)
                               if f["dflt"] is not None) + "]"
         okeys = [k for k in candidate_keys(spec, rng, limit=6) if isinstance(k, str)]
@@ -1378,14 +1470,15 @@ def deep_stream(ctx, rng, k4_ok):
         for ks in [prim] * 6 + list(subsets(okeys, rng, ctx.budget(14, 58))):
             d = gen_deep_dict(classes, "K", rng, keys=list(ks))
             exp = o_deep(classes, "K", d)
+            seen = o_apply_hook(spec, d)
             obs0 = None
             for ename, call in ents:
-                obs = observe_deep(call, d)
+                obs = observe_deep(call, d, seen=seen)
                 ctx.count(("deep", ci, repr(d), ename))
                 ctx.hist("outcome", obs[0] + " (deep stream)")
                 obs0 = obs if obs0 is None else obs0
                 if obs != exp:
-                    ctx.fail(f"{ename}({d!r}) -> {obs!r}, KEYMODEL says {exp!r}",
+                    LISTED.fail(ctx, "deep", len(items), f"{ename}({d!r}) -> {obs!r}, KEYMODEL says {exp!r}",
                              dict(replay_of(spec, src, ename, {}, obs, exp), input_deep=d),
                              {"kind": "nested-key-resolution", "observed": obs[0], "expected": exp[0]})
             if obs0[0] == "inst":
@@ -1398,26 +1491,20 @@ def deep_stream(ctx, rng, k4_ok):
                 co = "(DExtra [" + "; ".join(c_key(k) for k in obs0[1]) + "])"
             else:
                 co = '(DMissing "<unexpected exception>")'
-            items.append((ci, dtxt, f"(tb{ci}, {dfl}, [" + "; ".join(f"({c_key(k)}, {c_nv(v)})" for k, v in d.items()) + f"], {co})"))
+            items.append((ci, dtxt, f"(tb{ci}, hk{ci}, {dfl}, [" + "; ".join(f"({c_key(k)}, {c_nv(v)})" for k, v in d.items()) + f"], {co})"))
             shown.append((src, d, obs0))
         drop_module(mod)
-    okb = ("fun c => match c with (tb, dfl, d, o) => doutcome_eqb (dfl_of dfl) (deep_impl 12 tb 2 d) o "
-           "&& doutcome_eqb (dfl_of dfl) (deep_ref 12 tb 2 d) o end")
-    ctype = "list ncls * list (string * Z) * list (key * nv) * doutcome"
+    okb = ("fun c => match c with (tb, hk, dfl, d, o) => doutcome_eqb (dfl_of dfl) (deeph_impl 12 tb hk 2 d) o "
+           "&& doutcome_eqb (dfl_of dfl) (deeph_ref 12 tb hk 2 d) o end")
+    ctype = "list ncls * list (option (list hookop)) * list (string * Z) * list (key * nv) * doutcome"
     if k4_ok:
-        bad, log = coq_check("c09_deep", ("KeyModel KeyImpl KeyProofs KeyNested KeyDeep PyK_alias", "From VerifGen Require Import K4.",
-                                          ["theories/KeyDeep.vo"]), items, okb, ctx, ctype=ctype, shard=250)
+        bad, log = coq_check("c09_deep", ("KeyModel KeyImpl KeyProofs KeyNested KeyRewrite KeyDeep KeyDeepHook PyK_alias", "From VerifGen Require Import K4.",
+                                          ["theories/KeyDeepHook.vo"]), items, okb, ctx, ctype=ctype, shard=250)
     else:
         bad, log = None, "kernel K4 did not translate (KeyDeep is built on it)"
-    name = "deep: deep_impl(K4)/deep_ref-vs-from_dict"
-    if bad is None:
-        ctx.correspondence(name, len(items), -1, log)
-        ctx.not_shown("correspondence " + name, log)
-    else:
-        det = "" if not bad else f"{len(bad)} cases, first: input {shown[bad[0]][1]!r}: implementation {shown[bad[0]][2]!r}\n{shown[bad[0]][0]}"
-        ctx.correspondence(name, len(items), len(bad), det)
-        if bad:
-            ctx.not_shown("correspondence " + name, det)
+    name = "deep (+hooks on every class): deeph_impl(K4)/deeph_ref-vs-from_dict"
+    settle(ctx, "deep", name, len(items), bad, log,
+           lambda b: f"{len(b)} cases, first: input {shown[b[0]][1]!r}: implementation {shown[b[0]][2]!r}\n{shown[b[0]][0]}")
 
 
 # ---------------------------------------------------------------------------
@@ -1516,7 +1603,7 @@ def diamond_stream(ctx, rng, k4_ok, dc_items, dc_shown):
                 ctx.hist("outcome", obs[0] + " (diamond stream)")
                 obs0 = obs if obs0 is None else obs0
                 if obs != exp:
-                    ctx.fail(f"{ename}({d!r}) -> {obs!r}, KEYMODEL says {exp!r}",
+                    LISTED.fail(ctx, "diamond", len(items), f"{ename}({d!r}) -> {obs!r}, KEYMODEL says {exp!r}",
                              replay_of(spec, src, ename, d, obs, exp),
                              {"kind": "key-resolution", "observed": obs[0], "expected": exp[0]})
             items.append((f"d{ci}", f"Definition td{ci} : list pyclassdef := {tbl}.", f"(td{ci}, {g}, {dfl}, {c_dict(d)}, {c_obs(obs0)})"))
@@ -1533,14 +1620,8 @@ def diamond_stream(ctx, rng, k4_ok, dc_items, dc_shown):
     else:
         bad, log = coq_check("c09_diamond", ("KeyModel KeyDc", "", ["theories/KeyDc.vo"]), items, okr, ctx, ctype=ctype)
     name = "diamond: impl(K4)/keymodel on dc_class-vs-from_dict"
-    if bad is None:
-        ctx.correspondence(name, len(items), -1, log)
-        ctx.not_shown("correspondence " + name, log)
-    else:
-        det = "" if not bad else f"{len(bad)} cases, first: input {shown[bad[0]][1]!r}: implementation {shown[bad[0]][2]!r}\n{shown[bad[0]][0]}"
-        ctx.correspondence(name, len(items), len(bad), det)
-        if bad:
-            ctx.not_shown("correspondence " + name, det)
+    settle(ctx, "diamond", name, len(items), bad, log,
+           lambda b: f"{len(b)} cases, first: input {shown[b[0]][1]!r}: implementation {shown[b[0]][2]!r}\n{shown[b[0]][0]}")
 
 
 def dc_check(ctx, dc_items, dc_shown):
@@ -1549,14 +1630,212 @@ def dc_check(ctx, dc_items, dc_shown):
     bad, log = coq_check("c09_dc", ("KeyModel KeyDc", "", ["theories/KeyDc.vo"]), dc_items, okf, ctx,
                          ctype="list pyclassdef * nat * list (string * option string * bool) * list (string * option string)")
     name = "dc_table/class_hints-vs-__dataclass_fields__/get_type_hints"
-    if bad is None:
-        ctx.correspondence(name, len(dc_items), -1, log)
-        ctx.not_shown("correspondence " + name, log)
+    settle(ctx, None, name, len(dc_items), bad, log,
+           lambda b: f"{len(b)} cases, first: class {dc_shown[b[0]][1]}: real {dc_shown[b[0]][2]} hints {dc_shown[b[0]][3]}\n{dc_shown[b[0]][0]}")
+
+
+# ---------------------------------------------------------------------------
+# which class-level discriminator: any class of the hierarchy may define one in its Config
+# ---------------------------------------------------------------------------
+# config["dw"]: None (no discriminator line) | "none" (discriminator = None) | ("obj", field | None)
+
+DISCR_FIELDS = ["t", "t", "u", "kind", "None", ""]
+
+
+def o_cfg_discr(mro):
+    """mro: the class bodies, nearest first.  The `discriminator` attribute of the Config class the first one sees:
+    Python attribute lookup (written in the body of that Config, else in the Config it derives from, else the
+    documented default None)."""
+    for j, lv in enumerate(mro):
+        c = lv["config"]
+        if c is None:
+            continue
+        if c.get("dw") == "none":
+            return None
+        if c.get("dw") is not None:
+            return c["dw"]
+        if c["inherit"] is not None:
+            return o_cfg_discr(mro[j + 1:])
+        return None
+    return None
+
+
+def o_own_discr(mro):
+    """the class's own Config has a discriminator: its from_dict selects a subtype"""
+    return o_cfg_discr(mro) if mro and mro[0]["config"] is not None else None
+
+
+def o_nearest_discr(mro):
+    """the class-level discriminator a class has: that of the nearest class along the MRO that is a dispatcher"""
+    for j in range(len(mro)):
+        dv = o_own_discr(mro[j:])
+        if dv is not None:
+            return dv
+    return None
+
+
+def c_oo(dv) -> str:
+    return "None" if dv is None else f"(Some {c_ostr(dv[1])})"
+
+
+def c_dw(lv) -> str:
+    c = lv["config"]
+    if c is None or c.get("dw") is None:
+        return "DAbsent"
+    if c["dw"] == "none":
+        return "DNone"
+    return f"(DObj {c_ostr(c['dw'][1])})"
+
+
+def c_dlevels(mro) -> str:
+    return "[" + "; ".join(f"({c_level(lv)}, {c_dw(lv)})" for lv in mro) + "]"
+
+
+def gen_discr_spec(rng):
+    spec = gen_spec(rng, {"mixin": rng.choice([None, "dict", "dict"])})
+    spec["discr"] = None
+    levels = spec["levels"]
+    depth = len(levels)
+    lower = None
+    for j, lv in enumerate(levels):
+        if lv["config"] is None and rng.random() < 0.6:
+            inherit = lower is not None and rng.random() < 0.5
+            lv["config"] = {"plain": levels[lower]["config"]["plain"] if inherit else rng.random() < 0.3,
+                            "inherit": levels[lower]["cls"] if inherit else None, "aliases": None, "allow": None, "forbid": None}
+        c = lv["config"]
+        if c is not None:
+            c.pop("dialect_support", None)
+            if c["inherit"] is not None:
+                # a deriving Config names the Config its class would otherwise see: the nearest one below
+                c["inherit"] = levels[lower]["cls"]
+                c["plain"] = levels[lower]["config"]["plain"]
+            if spec["shape"] == "roots" and lv["cls"] != "K" and c["inherit"] is not None:
+                c["inherit"] = None            # an unrelated base names no other class's Config (its MRO is itself)
+            lower = j
+    if levels[-1]["config"] is None:
+        levels[-1]["config"] = {"plain": False, "inherit": None, "aliases": None, "allow": None, "forbid": None}
+    if rng.random() < 0.8:
+        levels[-1]["config"]["forbid"] = True
+    pool = DISCR_FIELDS + [f["name"] for f in o_fields(spec)] + [a for a in all_alias_strings(spec)][:3]
+    for lv in levels:
+        c = lv["config"]
+        if c is None:
+            continue
+        r = rng.random()
+        c["dw"] = None if r < 0.3 else "none" if r < 0.4 else ("obj", None) if r < 0.5 else ("obj", rng.choice(pool))
+    mro = list(reversed(levels))
+    if o_own_discr(mro) is not None and rng.random() < 0.8:
+        # most of the time K itself reads fields
+        kc = levels[-1]["config"]
+        if kc["dw"] not in (None, "none"):
+            kc["dw"] = rng.choice([None, "none"])
+        if o_own_discr(mro) is not None:
+            kc["dw"] = "none"
+    return spec
+
+
+def discr_stream(ctx, rng, k4_ok):
+    from mashumaro.codecs import BasicDecoder
+    from mashumaro.core.meta.code.builder import CodeBuilder
+    from mashumaro.mixins.dict import DataClassDictMixin
+    k109a_ok = bool(ctx.kernel_report.get("K109a", {}).get("ok"))
+    items, shown = [], []
+    views, vshown = [], []
+    for ci in range(ctx.budget(60, 160)):
+        spec = gen_discr_spec(rng)
+        src = class_source(spec)
+        levels = spec["levels"]
+        try:
+            mod = build_class(src)
+            K = mod.K
+            builders = {lv["cls"]: CodeBuilder(getattr(mod, lv["cls"])) for lv in levels}
+            ents = ([("K.from_dict", K.from_dict)] if spec["mixin"] else []) + [("BasicDecoder(K).decode", BasicDecoder(K).decode)]
+        except Exception as e:
+            ctx.fail(f"class creation fails: {type(e).__name__}: {e}",
+                     {"entry": "class-creation", "source": src, "spec": spec, "input": [], "observed": repr(e),
+                      "expected": "the classes are created"}, {"kind": "class-creation", "exc": type(e).__name__})
+            continue
+        # ---- what get_discriminator finds, for K and every ancestor
+        for j, lv in enumerate(levels):
+            sub = levels[:j + 1] if (spec["shape"] == "chain" or lv["cls"] == "K") else [lv]
+            mro = list(reversed(sub))
+            real_mro = [c.__name__ for c in getattr(mod, lv["cls"]).__mro__ if c.__module__ == mod.__name__]
+            if real_mro != [x["cls"] for x in mro]:
+                ctx.not_shown("discriminator stream MRO", f"expected {[x['cls'] for x in mro]}, Python says {real_mro}\n{src}")
+                continue
+            got = []
+            for lp in (True, False):
+                dv = builders[lv["cls"]].get_discriminator(look_in_parents=lp)
+                got.append(None if dv is None else ("obj", dv.field))
+            exp = [o_nearest_discr(mro), o_own_discr(mro)]
+            ctx.count(("discr-view", ci, lv["cls"]))
+            ctx.hist("discr_view", f"nearest={'-' if exp[0] is None else 'own' if exp[1] is not None else 'ancestor'} "
+                                   f"configs={sum(1 for x in mro if x['config'] is not None)}")
+            if got != exp:
+                LISTED.fail(ctx, "discr-view", len(views),
+                            f"CodeBuilder({lv['cls']}).get_discriminator(look_in_parents=True / False) -> {got!r}, "
+                            f"Python's attribute rules say {exp!r}",
+                            {"entry": "get_discriminator", "source": src, "class": lv["cls"], "spec": spec, "input": [],
+                             "observed": repr(got), "expected": repr(exp)},
+                            {"kind": "discriminator-lookup", "observed": repr(got[0] is not None), "expected": repr(exp[0] is not None)})
+            views.append((f"v{ci}_{j}", f"Definition dv{ci}_{j} : list dlevel := {c_dlevels(mro)}.",
+                          f"(dv{ci}_{j}, {c_oo(got[0])}, {c_oo(got[1])})"))
+            vshown.append((src, lv["cls"], got))
+        # ---- the keys K.from_dict accepts
+        mro = list(reversed(levels))
+        if builders["K"].get_discriminator() is not None or o_own_discr(mro) is not None:
+            drop_module(mod)
+            continue                                   # K is a dispatcher: no field is read (property C05)
+        nd = o_nearest_discr(mro)
+        ospec = dict(spec, no_base=True, discr=None if nd is None else (("field", nd[1]) if nd[1] is not None else ("nofield",)))
+        tags = [lv["config"]["dw"][1] for lv in levels if lv["config"] is not None and lv["config"].get("dw") not in (None, "none")
+                and lv["config"]["dw"][1] is not None]
+        keys = []
+        for k in tags + candidate_keys(ospec, rng, limit=6):
+            if k not in keys:
+                keys.append(k)
+        keys = keys[:7]
+        dfl = c_defaults(spec)
+        dtxt = f"Definition dh{ci} : list dlevel := {c_dlevels(mro)}."
+        hooked = o_hook(spec) is not None
+        ctx.hist("discr_stream", f"nearest discriminator {'-' if nd is None else 'with field' if nd[1] else 'without field'}, "
+                                 f"{'hook' if hooked else 'no hook'}")
+        uses_mixin = vlib.coq_bool(DataClassDictMixin in K.__mro__)
+        for ks in subsets(keys, rng, ctx.budget(24, 64)):
+            d = make_dict(ks, keys, rng)
+            dh = o_apply_hook(spec, d)                # the dispatcher test comes first, then K's hook, then the keys
+            exp = o_keymodel(ospec, dh)
+            obs0 = None
+            for ename, call in ents:
+                obs = observe(spec, call, d, seen=dh if hooked else None)
+                ctx.count(("discr", ci, repr(sorted(map(repr, d.items()))), ename))
+                ctx.hist("outcome", obs[0] + " (discriminator stream)")
+                obs0 = obs if obs0 is None else obs0
+                if obs != exp:
+                    LISTED.fail(ctx, "discr", len(items), f"{ename}({d!r}) -> {obs!r}, KEYMODEL says {exp!r}",
+                                replay_of(ospec, src, ename, d, obs, exp),
+                                {"kind": "key-resolution", "observed": obs[0], "expected": exp[0]})
+            items.append((f"h{ci}", dtxt, f"(dh{ci}, {c_hooks(spec)}, {uses_mixin}, {dfl}, {c_dict(d)}, {c_obs(obs0)})"))
+            shown.append((src, d, obs0))
+        drop_module(mod)
+    MODEL = ("KeyModel KeyImpl KeyProofs KeyCfg KeyRewrite PyK_alias PyK_clsdiscr KeyDiscr KeyHookLookup KeyFull",
+             "From VerifGen Require Import K4 K109a K109b.", ["theories/KeyFull.vo"])
+    n1 = "discriminator: get_discriminator(K109a)/nearest_discr/own_discr-vs-CodeBuilder.get_discriminator"
+    n2 = "discriminator+hooks: impl_from_class(K4,K109a,K109b)/keymodel with nearest_discr on the hooked mapping-vs-from_dict"
+    if k4_ok and k109a_ok and bool(ctx.kernel_report.get("K109b", {}).get("ok")):
+        bad, log = coq_check("c09_dview", MODEL, views, "fun c => match c with (r, p, o) => discr_view_ok r p o end", ctx,
+                             ctype="list dlevel * option (option string) * option (option string)")
+        bad2, log2 = coq_check("c09_dhier", MODEL, items,
+                               "fun c => match c with (r, hk, mx, dfl, d, o) => dfull_ok r hk mx dfl d o end", ctx,
+                               ctype="list dlevel * list (option (list hookop)) * bool * list Z * dict * observation")
     else:
-        det = "" if not bad else f"{len(bad)} cases, first: class {dc_shown[bad[0]][1]}: real {dc_shown[bad[0]][2]} hints {dc_shown[bad[0]][3]}\n{dc_shown[bad[0]][0]}"
-        ctx.correspondence(name, len(dc_items), len(bad), det)
-        if bad:
-            ctx.not_shown("correspondence " + name, det)
+        bad = bad2 = None
+        log = log2 = "kernel K109a / K109b / K4 did not translate: " + str(ctx.kernel_report.get("K109a", {}).get("error")) \
+            + " / " + str(ctx.kernel_report.get("K109b", {}).get("error"))
+    settle(ctx, "discr-view", n1, len(views), bad, log,
+           lambda b: f"{len(b)} cases, first: class {vshown[b[0]][1]}: get_discriminator(True/False) = {vshown[b[0]][2]!r}\n{vshown[b[0]][0]}")
+    settle(ctx, "discr", n2, len(items), bad2, log2,
+           lambda b: f"{len(b)} cases, first: input {shown[b[0]][1]!r}: implementation {shown[b[0]][2]!r}\n{shown[b[0]][0]}")
 
 
 # ---------------------------------------------------------------------------
@@ -1566,7 +1845,8 @@ def dc_check(ctx, dc_items, dc_shown):
 THEOREMS = ["K4_precedence", "K4_key_plan", "K4_allowed_keys", "C09_impl_is_code", "C09_keys", "C09_keys_hier",
             "C09_nearest_declaration", "C09_nearest_config", "C09_get_config", "C09_builder_config", "C09_fields_unique", "C09_alias_from_sources",
             "C09_mro_chain", "C09_mro_roots", "C09_own_view_finished", "C09_own_view_raw", "C09_nested", "C09_nested_inner_options", "C09_pre_hook", "C09_nearest_hook", "C09_hook_rename",
-            "C09_dc_lookup", "C09_dc_chain", "C09_dc_roots", "C09_dataclass_fields_dc", "C09_deep", "C09_deep_list", "C09_deep_map_keys",
+            "C09_dc_lookup", "C09_dc_chain", "C09_dc_roots", "C09_dataclass_fields_dc", "C09_deep", "C09_deep_list", "C09_deep_map_keys", "C09_deep_hooks", "C09_deep_no_hooks", "C09_inner_hook",
+            "C09_get_discriminator", "C09_own_discriminator", "C09_keys_discr", "C09_discr_accepted", "C09_discr_config_inheritance", "C09_declared_hook", "C09_pre_hook_code", "C09_from_class", "C09_init_filter", "C09_from_class_fields",
             "C09_field_key", "C09_outcome", "C09_alias_wins", "C09_fallback", "C09_accepted_covers_reads",
             "C09_reads_allowed", "C09_extra_members", "C09_extra_exact", "C09_ignored", "C09_forbidden_reported"]
 
@@ -1588,6 +1868,8 @@ def replay_of(spec, src, entry, d, obs, exp):
 
 
 def run(ctx: vlib.Ctx):
+    global LISTED
+    LISTED = Listed(ctx.pid)
     ctx.coverage["rule"] = (
         "class K = last of a hierarchy of 1..3 dataclasses (A -> B -> K) with 0..3 init fields; every field may be "
         "re-declared in a nearer class with other alias sources (the nearest declaration counts), or turned into an "
@@ -1620,7 +1902,11 @@ def run(ctx: vlib.Ctx):
         "input keys are hashable scalars (str / None / int); values are ints or None and are opaque to the model (None "
         "crosses to Coq as the reserved code -7); outcomes are compared at the level of what is observable: attribute values",
     ]
-    br = ctx.theorems("props/C09_keys.vo", THEOREMS, kernels=["K4", "K5"])
+    # In a fresh copy on a loaded machine the cone of the property file may not be built yet (setup's make is cut off by
+    # its own timeout): build it first with a generous budget, so that no obligation below depends on the 900 s of
+    # vlib.coq_make being enough for a build from scratch.  Failures are reported by ctx.theorems / coq_check below.
+    vlib.coq_make(["props/C09_keys.vo"], timeout=3300, jobs=6)
+    br = ctx.theorems("props/C09_keys.vo", THEOREMS, kernels=["K4", "K5", "K109a", "K109b", "K109c"])
     # every registered name must be a theorem of the props file with its own Print Assumptions, all closed
     import os
     import re
@@ -1636,8 +1922,8 @@ def run(ctx: vlib.Ctx):
     k4_ok = bool(ctx.kernel_report.get("K4", {}).get("ok"))
     if not ctx.quick() and br.ok:
         # second opinion of the independent checker on the compiled library of the property file
-        rc, out, secs = vlib.run(["timeout", "600", "coqchk", "-silent", "-o"] + vlib.COQ_FLAGS[:9] + ["VerifProps.C09_keys"],
-                                 cwd=vlib.COQ, timeout=640)
+        rc, out, secs = vlib.run(["timeout", "3000", "coqchk", "-silent", "-o"] + vlib.COQ_FLAGS[:9] + ["VerifProps.C09_keys"],
+                                 cwd=vlib.COQ, timeout=3060)
         good = rc == 0 and "* Axioms: <none>" in out
         ctx.obligation("coqchk VerifProps.C09_keys (axioms: none)", good, out[-600:])
         if not good:
@@ -1656,8 +1942,10 @@ def run(ctx: vlib.Ctx):
               for m in (None, "dict") for nf, dp in ((1, 1), (2, 3))]
     cases = []          # (spec, src, entry, d, obs)
     src_items, src_shown = [], []      # the builder's view of the classes vs the modelled Python semantics
+    hook_items, hook_shown = [], []    # which __pre_deserialize__ CodeBuilder.get_declared_hook finds
     coq_defs = []
     coq_cases = []
+    full_cases = []     # the same cases for the model in which every decision goes through a translated function (KeyFull)
     dom_cases = []
     n_mismatch_oracle = 0
     for ci in range(n_classes):
@@ -1692,6 +1980,12 @@ def run(ctx: vlib.Ctx):
                      {"entry": "class-creation", "source": src, "spec": spec, "input": [], "observed": repr(e),
                       "expected": "CodeBuilder(cls).dataclass_fields / get_config()"}, {"kind": "class-creation", "exc": type(e).__name__})
         try:
+            for hv_case in hook_views(spec, mod):
+                hook_items.append((len(hook_items), "", hv_case[0]))
+                hook_shown.append((src,) + hv_case[1:])
+        except Exception as e:
+            ctx.not_shown("hook views", f"{type(e).__name__}: {e}")
+        try:
             tbl = c_table(spec, mod)
             for j, fs, hv in dc_views(spec, mod):
                 dc_items.append((f"m{ci}", f"Definition tm{ci} : list pyclassdef := {tbl}.", f"(tm{ci}, {j}%nat, {fs}, {hv})"))
@@ -1725,6 +2019,13 @@ def run(ctx: vlib.Ctx):
         ctx.hist("pre_hook", "none" if not hooked else f"ops={len(o_hook(spec))} in {'K' if spec['levels'][-1].get('hook') is not None else 'ancestor'}")
         ctx.hist("values", "ints and None" if nullable else "ints")
         coq_defs.append(f"Definition c{ci} : list level := {c_spec(spec)}.")
+        # the same class as the MRO of class bodies (nearest first) that the translated get_discriminator / get_config walk:
+        # the common parent `Base` with its Config discriminator is the last class of it
+        base_lv = [] if spec["discr"] is None else [
+            "(mkL [] (Some (mkCD false false None None None)), DObj " + (c_ostr(spec["discr"][1]) if spec["discr"][0] == "field" else "None") + ")"]
+        full_def = (f"Definition r{ci} : list dlevel := [" +
+                    "; ".join([f"({c_level(lv)}, {c_dw(lv)})" for lv in reversed(spec["levels"])] + base_lv) + "].")
+        uses_mixin = vlib.coq_bool(spec["mixin"] is not None)
         dfl = c_defaults(spec)
         dicts = []
         for ks in subsets(keys, rng, sub_max):
@@ -1759,12 +2060,14 @@ def run(ctx: vlib.Ctx):
                 if obs != exp:
                     n_mismatch_oracle += 1
                     kind = "key-resolution"
-                    ctx.fail(f"{ename}({dd!r}) -> {obs!r}, KEYMODEL says {exp!r}",
+                    LISTED.fail(ctx, "main", len(coq_cases), f"{ename}({dd!r}) -> {obs!r}, KEYMODEL says {exp!r}",
                              replay_of(spec, src, ename, dd, obs, exp),
                              {"kind": kind, "observed": obs[0], "expected": exp[0]})
             # all entry points agree? (if not, the oracle has already flagged at least one of them)
             obs0 = obs_all[0]
             coq_cases.append((ci, coq_defs[-1], f"(c{ci}, {c_hooks(spec)}, {c_discr(spec)}, {dfl}, {c_dict(d)}, {c_obs(obs0)})"))
+            full_cases.append((ci, coq_defs[-1] + "\n" + full_def,
+                               f"(c{ci}, {c_hooks(spec)}, {c_discr(spec)}, {dfl}, {c_dict(d)}, {c_obs(obs0)}, r{ci}, {uses_mixin})"))
             cases.append((spec, src, ents[0][0], d, obs0))
             if len(ctx.coverage["samples"]) < 6 and len(ks) >= 2 and rng.random() < 0.01:
                 ctx.sample({"class": src, "input": repr(d), "observed": repr(obs0)})
@@ -1782,28 +2085,37 @@ def run(ctx: vlib.Ctx):
     REF = ("KeyModel KeyRewrite", "", ["theories/KeyRewrite.vo"])
 
     def report(name, bad, log, n):
-        if bad is None:
-            ctx.correspondence(name, n, -1, log)
-            ctx.not_shown("correspondence " + name, log)
-            return
-        det = ""
-        if bad:
-            spec, src, en, d, obs = cases[bad[0]]
-            det = f"{len(bad)} cases, first: class\n{src}\ninput {d!r}: implementation {obs!r}"
-        ctx.correspondence(name, n, len(bad), det)
-        if bad:
-            ctx.not_shown("correspondence " + name, det)
+        settle(ctx, "main", name, n, bad, log,
+               lambda b: f"{len(b)} cases, first: class\n{cases[b[0]][1]}\ninput {cases[b[0]][3]!r}: implementation {cases[b[0]][4]!r}")
 
     n = len(coq_cases)
     n_dom = n
     n_impl, n_ref = "impl-model(K4)-vs-from_dict", "keymodel(reference)-vs-from_dict"
+    impl_cases = coq_cases
+    if k4_ok and all(ctx.kernel_report.get(k, {}).get("ok") for k in ("K109a", "K109b", "K109c")):
+        # the implementation side = KeyInit.impl_from_class_fields: dispatcher test and discriminator of the MRO (K109a), declared
+        # hook (K109b), get_config / aliases / allowed keys / key plan (K4), which members are read (K109c); the reference
+        # side stays the kernel-free keymodel
+        n_impl = "impl_from_class_fields(K4,K109a,K109b,K109c)-vs-from_dict"
+        FULLT = "list level * list (option (list hookop)) * option (option string) * list Z * dict * observation * list dlevel * bool"
+        ok_impl = ("fun c => match c with (h, hk, dk, dfl, d, o, r, mx) => match impl_from_class_fields r hk mx d with "
+                   "Ok (Body x) => observation_eqb (observe dfl x) o | _ => false end end")
+        ok_both = ("fun c => match c with (h, hk, dk, dfl, d, o, r, mx) => match impl_from_class_fields r hk mx d with "
+                   "Ok (Body x) => observation_eqb (observe dfl x) o | _ => false end "
+                   "&& observation_eqb (observe dfl (keymodel (class_of h dk) (apply_hook (nearest_hook hk) d))) o end")
+        IMPL = ("KeyModel KeyImpl KeyProofs KeyCfg KeyRewrite KeyHook PyK_alias PyK_clsdiscr KeyDiscr KeyHookLookup KeyFull KeyInit",
+                "From VerifGen Require Import K4 K109a K109b K109c.", ["theories/KeyInit.vo"])
+        impl_cases = full_cases
+        impl_type = FULLT
+    else:
+        impl_type = CASE_TYPE
     if k4_ok:
-        bad, log = coq_check("c09_both", IMPL, coq_cases, ok_both, ctx)
+        bad, log = coq_check("c09_both", IMPL, impl_cases, ok_both, ctx, ctype=impl_type)
         if bad is None or bad:
             # attribute: run the two comparisons separately (on the disagreeing cases, or on all if Coq failed)
             sub = list(range(n)) if bad is None else bad[:2000]
             sub_cases = [coq_cases[i] for i in sub]
-            b1, l1 = coq_check("c09_impl", IMPL, sub_cases, ok_impl, ctx)
+            b1, l1 = coq_check("c09_impl", IMPL, [impl_cases[i] for i in sub], ok_impl, ctx, ctype=impl_type)
             b2, l2 = coq_check("c09_ref", REF, sub_cases, ok_ref, ctx)
             report(n_impl, None if b1 is None else [sub[i] for i in b1], l1, n)
             report(n_ref, None if b2 is None else [sub[i] for i in b2], l2, n_dom)
@@ -1830,14 +2142,20 @@ def run(ctx: vlib.Ctx):
     bad, log = coq_check("c09_src", src_model, src_items, okv, ctx,
                          ctype="list level * list level * list (string * option string * bool) * cfg")
     nm = "collect/nearest_cfg/impl_cfg(K4)-vs-CodeBuilder.dataclass_fields/get_config"
-    if bad is None:
-        ctx.correspondence(nm, len(src_items), -1, log)
-        ctx.not_shown("correspondence " + nm, log)
+    settle(ctx, None, nm, len(src_items), bad, log, lambda b: f"{len(b)} cases, first: {src_shown[b[0]][1:]} of\n{src_shown[b[0]][0]}")
+    # ---- which __pre_deserialize__ the builder finds, through the translated lookup (K109b)
+    nmh = "get_declared_hook(K109b)/declared_idx-vs-CodeBuilder.get_declared_hook"
+    if bool(ctx.kernel_report.get("K109b", {}).get("ok")):
+        bad, log = coq_check("c09_hookview", ("KeyModel KeyRewrite PyK_alias PyK_clsdiscr KeyHookLookup", "From VerifGen Require Import K109b.",
+                                              ["theories/KeyHookLookup.vo"]), hook_items,
+                             "fun c => match c with (hs, mx, o) => hook_view_ok hs mx o end", ctx,
+                             ctype="list (option (list hookop)) * bool * option nat")
     else:
-        det = "" if not bad else f"{len(bad)} cases, first: {src_shown[bad[0]][1:]} of\n{src_shown[bad[0]][0]}"
-        ctx.correspondence(nm, len(src_items), len(bad), det)
-        if bad:
-            ctx.not_shown("correspondence " + nm, det)
+        bad, log = None, "kernel K109b did not translate: " + str(ctx.kernel_report.get("K109b", {}).get("error"))
+    settle(ctx, None, nmh, len(hook_items), bad, log,
+           lambda b: f"{len(b)} cases, first: class {hook_shown[b[0]][1]}: hook defined by level {hook_shown[b[0]][2]!r}\n{hook_shown[b[0]][0]}")
+    # ---- class-level discriminators anywhere in the hierarchy (after everything else: the earlier streams keep their cases)
+    discr_stream(ctx, rng, k4_ok)
 
 
 # ---------------------------------------------------------------------------
@@ -1871,6 +2189,25 @@ def replay(rep: dict) -> int:
         print("classes, decoders and builder views are created")
         print("not reproduced")
         return 0
+    if rep["entry"] == "get_discriminator":
+        from mashumaro.core.meta.code.builder import CodeBuilder
+        levels = spec["levels"]
+        j = [lv["cls"] for lv in levels].index(rep["class"])
+        sub = levels[:j + 1] if (spec["shape"] == "chain" or rep["class"] == "K") else [levels[j]]
+        mro = list(reversed(sub))
+        for lv in levels:
+            c = lv["config"]
+            if c is not None and isinstance(c.get("dw"), list):
+                c["dw"] = tuple(c["dw"])
+        b = CodeBuilder(getattr(mod, rep["class"]))
+        got = []
+        for lp in (True, False):
+            dv = b.get_discriminator(look_in_parents=lp)
+            got.append(None if dv is None else ("obj", dv.field))
+        exp = [o_nearest_discr(mro), o_own_discr(mro)]
+        print(rep["source"]); print("class   ", rep["class"]); print("observed", got); print("expected", exp)
+        print("REPRODUCED" if got != exp else "not reproduced")
+        return 1 if got != exp else 0
     if "input_deep" in rep:
         from mashumaro.codecs import BasicDecoder
         sp = spec
@@ -1883,7 +2220,7 @@ def replay(rep: dict) -> int:
             sp = sp.get("inner")
         d = rep["input_deep"]
         call = mod.K.from_dict if rep["entry"] == "K.from_dict" else BasicDecoder(mod.K).decode
-        obs = observe_deep(call, d)
+        obs = observe_deep(call, d, seen=o_apply_hook(spec, d))
         exp = o_deep(deep_classes(spec), "K", d)
         def norm(o):
             return json.loads(json.dumps(o))
